@@ -52,8 +52,8 @@ EscAtom(a) == CASE a = "M1" -> "E1" [] a = "M2" -> "E2" [] a = "M3" -> "E3" [] a
                 [] a = "<" -> "&lt;" [] a = ">" -> "&gt;" [] a = "&" -> "&amp;"
                 [] OTHER -> a
 EscStr(s) == [i \in 1..Len(s) |-> EscAtom(s[i])]
-UpAtom(a) == CASE a = "a" -> "A" [] a = "b" -> "B" [] a = "c" -> "C" [] a = "x" -> "X" [] a = "y" -> "Y" [] OTHER -> a
-LoAtom(a) == CASE a = "A" -> "a" [] a = "B" -> "b" [] a = "C" -> "c" [] a = "X" -> "x" [] a = "Y" -> "y" [] OTHER -> a
+UpAtom(a) == CASE a = "a" -> "A" [] a = "b" -> "B" [] a = "c" -> "C" [] a = "d" -> "D" [] a = "k" -> "K" [] a = "q" -> "Q" [] a = "w" -> "W" [] a = "x" -> "X" [] a = "y" -> "Y" [] a = "z" -> "Z" [] OTHER -> a
+LoAtom(a) == CASE a = "A" -> "a" [] a = "B" -> "b" [] a = "C" -> "c" [] a = "D" -> "d" [] a = "K" -> "k" [] a = "Q" -> "q" [] a = "W" -> "w" [] a = "X" -> "x" [] a = "Y" -> "y" [] a = "Z" -> "z" [] OTHER -> a
 
 \* order of atoms (for `sorted` over strings and string-keyed maps): code point order of the plain letters used
 AtomRank(a) == CASE a = "1" -> 1 [] a = "2" -> 2 [] a = "3" -> 3 [] a = "A" -> 10 [] a = "B" -> 11 [] a = "C" -> 12
@@ -71,10 +71,15 @@ NatStr(n) == IF n < 10 THEN <<Digits(n)>> ELSE NatStr(n \div 10) \o <<Digits(n %
 IntStr(n) == IF n < 0 THEN <<"-">> \o NatStr(0 - n) ELSE NatStr(n)
 
 \* canonical string form of a value (what printing it produces), for values the specification prints itself
+RECURSIVE StrOf(_), PiecesStr(_)
+PiecesStr(ps) == IF ps = <<>> THEN <<>> ELSE
+                 (IF Head(ps).k = "w" THEN (IF Head(ps).n > 0 THEN EscStr(StrOf(Head(ps).l[1])) ELSE StrOf(Head(ps).l[1])) ELSE StrOf(Head(ps)))
+                 \o PiecesStr(Tail(ps))
 StrOf(v) == CASE v.k = "str" -> v.s
               [] v.k = "int" -> IntStr(v.n)
               [] v.k = "bool" -> IF v.n = 1 THEN <<"T","r","u","e">> ELSE <<"F","a","l","s","e">>
               [] v.k = "nil" -> <<>>
+              [] v.k = "markup" -> PiecesStr(v.l)
               [] OTHER -> <<"?">>
 
 ----------------------------------------------------------------------------
@@ -127,7 +132,7 @@ Items(v, rev, sorted) ==
 \* copy of its parent. pub: the caller's context merged over the globals.
 InitState(pub) ==
   [env |-> << <<>> >>, pub |-> pub, out |-> <<>>, err |-> "", auto |-> TRUE,
-   cyc |-> <<>>, chg |-> <<>>, depth |-> 0, evs |-> <<>>, macros |-> <<>>, path |-> <<>>, files |-> <<>>, globals |-> <<>>]
+   cyc |-> <<>>, chg |-> <<>>, depth |-> 0, evs |-> <<>>, macros |-> <<>>, path |-> <<>>, files |-> <<>>, globals |-> <<>>, symbolic |-> FALSE]
 
 Has(f, x) == x \in DOMAIN f
 Top(st) == st.env[Len(st.env)]
@@ -152,6 +157,8 @@ LoopField(lr, f) == CASE f = "Counter" -> lr.l[1] [] f = "Counter0" -> lr.l[2] [
 ----------------------------------------------------------------------------
 (* filters the specification defines itself (the rest stay symbolic) *)
 
+\* the HTML-aware truncation filters hand back markup that is not escaped again (an explicit opt-out named by C02)
+SafeOutFilters == {"truncatechars_html", "truncatewords_html"}
 DefinedFilters == {"safe", "escape", "e", "length", "upper", "lower", "add", "default", "first", "last", "join", "cut", "capfirst"}
 
 ApplyDefined(f, v, a) ==
@@ -205,6 +212,16 @@ Eval(e, st) ==
   ELSE CASE e.t = "lit" -> R(e.v, st, FALSE)
     [] e.t = "var" -> LET v0 == Lookup(st, e.path[1]) IN
                       LET v == EvalPath(v0, e.path, 2) IN R(v, st, v.k = "markup")
+    [] e.t = "sub" ->
+         \* e[i]: list/string by integer index, map by key; out of range or missing: the empty value; a scalar: error
+         LET r == Eval(e.e, st) IN LET ri == Eval(e.i, r.st) IN
+         IF ri.st.err # "" THEN R(Nil, ri.st, FALSE)
+         ELSE CASE r.v.k = "list" -> R(IF ri.v.k = "int" /\ ri.v.n >= 0 /\ ri.v.n < Len(r.v.l) THEN r.v.l[ri.v.n + 1] ELSE Nil, ri.st, FALSE)
+                [] r.v.k = "str" -> R(IF ri.v.k = "int" /\ ri.v.n >= 0 /\ ri.v.n < Len(r.v.s) THEN S(<<r.v.s[ri.v.n + 1]>>) ELSE Nil, ri.st, FALSE)
+                [] r.v.k = "map" -> LET hits == {j \in 1..Len(r.v.l) : r.v.l[j].l[1] = ri.v} IN
+                                    R(IF hits = {} THEN Nil ELSE r.v.l[CHOOSE j \in hits : TRUE].l[2], ri.st, FALSE)
+                [] r.v.k = "nil" -> R(Nil, ri.st, FALSE)
+                [] OTHER -> R(Nil, Fail(ri.st, "cannot index a scalar"), FALSE)
     [] e.t = "arr" -> LET r == EvalList(e.items, st, <<>>) IN R(L(r.v), r.st, FALSE)
     [] e.t = "filt" -> LET r == Eval(e.e, st) IN EvalChain(e.chain, 1, r, r.st)
     [] e.t = "not" -> LET r == Eval(e.a, st) IN R(B(~Truthy(r.v)), r.st, FALSE)
@@ -246,9 +263,10 @@ EvalChain(chain, i, r, st) ==
   ELSE LET c == chain[i] IN
        LET ra == IF c.arg.t = "none" THEN R(Nil, st, FALSE) ELSE Eval(c.arg, st) IN
        LET st1 == Ev(ra.st, <<"Filter", c.f>>) IN
-       LET nv == IF c.f \in DefinedFilters THEN ApplyDefined(c.f, r.v, ra.v) ELSE Ap(c.f, r.v, ra.v) IN
+       \* with st.symbolic every filter except `safe` stays symbolic (families that sweep the whole registry)
+       LET nv == IF c.f \in DefinedFilters /\ (~st.symbolic \/ c.f = "safe") THEN ApplyDefined(c.f, r.v, ra.v) ELSE Ap(c.f, r.v, ra.v) IN
        \* safe-ness: a filter result is an ordinary value again, except that |safe keeps what it is given
-       EvalChain(chain, i + 1, R(nv, st1, IF c.f = "safe" THEN r.safe ELSE FALSE), st1)
+       EvalChain(chain, i + 1, R(nv, st1, IF c.f = "safe" THEN r.safe ELSE c.f \in SafeOutFilters), st1)
 
 \* writing a value: escaped iff autoescape is on, the expression has no |safe, the value is not marked safe and is a string
 WriteVal(st, e, r) ==
@@ -366,7 +384,7 @@ Exec(n, st) ==
     [] n.t = "filter" ->
          LET st1 == ExecSeq(n.body, [st EXCEPT !.out = <<>>], 1) IN
          IF st1.err # "" THEN st1
-         ELSE LET r == EvalChain(n.chain, 1, R(Markup(st1.out), st1, FALSE), [st1 EXCEPT !.out = st.out]) IN
+         ELSE LET r == EvalChain(n.chain, 1, R(S(PiecesStr(st1.out)), st1, FALSE), [st1 EXCEPT !.out = st.out]) IN
               IF r.st.err # "" THEN r.st ELSE Emit(r.st, W(r.v, 0))
     [] n.t = "include" ->
          \* the included template is a render of its own: it sees the includer's view (tag-set names over the caller's
@@ -376,7 +394,7 @@ Exec(n, st) ==
               IF rp.st.err # "" THEN rp.st
               ELSE \* (the set's globals are visible in every template of the set, also under `only`)
                    LET view == IF n.only THEN rp.v @@ st.globals ELSE rp.v @@ Top(st) @@ st.pub IN
-                   LET sub == [InitState(view) EXCEPT !.files = st.files, !.globals = st.globals, !.auto = TRUE, !.path = <<"file", n.name>>,
+                   LET sub == [InitState(view) EXCEPT !.files = st.files, !.globals = st.globals, !.symbolic = st.symbolic, !.auto = TRUE, !.path = <<"file", n.name>>,
                                                      !.evs = Append(rp.st.evs, <<"ExecBegin">>)] IN
                    LET st1 == ExecSeq(st.files[n.name], sub, 0) IN
                    IF st1.err # "" THEN [rp.st EXCEPT !.err = st1.err, !.evs = st1.evs]
@@ -404,6 +422,7 @@ ExecSeq(ns, st, b) ==
 Render(prog, pub) == ExecSeq(prog, InitState(pub), 0)
 RenderG(prog, pub, files, globals) == ExecSeq(prog, [InitState(pub) EXCEPT !.files = files, !.globals = globals, !.evs = <<<<"ExecBegin">>>>], 0)
 RenderF(prog, pub, files) == RenderG(prog, pub, files, <<>>)
+RenderSym(prog, pub, files) == ExecSeq(prog, [InitState(pub) EXCEPT !.files = files, !.symbolic = TRUE, !.evs = <<<<"ExecBegin">>>>], 0)
 
 \* Execute(ctx) on a compiled template of a set with Globals: context keys must be identifiers and must not clash with
 \* an exported macro; the template sees ctx over globals
